@@ -462,6 +462,7 @@ pub fn etag_variants() -> Vec<Option<Tag>> {
         Some(Tag { weak: true, opaque: b"abc".to_vec() }),
         Some(Tag { weak: false, opaque: b"a, b".to_vec() }),
         Some(Tag { weak: false, opaque: b"caf\xe9".to_vec() }),
+        Some(Tag { weak: false, opaque: b"v1\\".to_vec() }),
     ]
 }
 pub fn mtime_variants() -> Vec<Option<u64>> {
@@ -587,6 +588,9 @@ fn tag_pool(etag: &Option<Tag>) -> Vec<Tag> {
         Tag { weak: false, opaque: b"caf\xe9".to_vec() },
         Tag { weak: true, opaque: b"caf\xe9".to_vec() },
         Tag { weak: false, opaque: b"caf\xc3\xa9".to_vec() },
+        // a backslash is an ordinary etagc (RFC 7232 has no escaping): the tag ends at the next quote
+        Tag { weak: false, opaque: b"a\\".to_vec() },
+        Tag { weak: true, opaque: b"b\\\\".to_vec() },
     ];
     if let Some(t) = etag {
         v.push(t.clone());
